@@ -85,6 +85,69 @@ impl<'a> Visitor for LifeJobs<'a> {
     }
 }
 
+struct CloneJobs<'a> {
+    out: &'a mut Vec<Job>,
+    depth: usize,
+    max_clones: usize,
+}
+
+impl<'a> Visitor for CloneJobs<'a> {
+    fn visit<S: Spec>(&mut self, e: Entry<S>) {
+        if e.clone_fn.is_none() {
+            return;
+        }
+        let (nv, nf, depth) = if e.zst || e.render.is_none() { (3, 1, self.depth.min(4)) } else { (3, 2, self.depth) };
+        let mc = self.max_clones;
+        let mut b = BfsCfg::new(depth);
+        b.wall_cap_s = 300.0;
+        b.max_states = 1_500_000;
+        self.out.push(job(move || Box::new(crate::m_clone::CloneMachine::<S>::new(e.clone(), nv, nf, mc)), Mode::Bfs(b), false));
+    }
+}
+
+use crate::m_stack::{StackCaps, StackMachine, StackOracle};
+
+struct StackJobs<'a> {
+    out: &'a mut Vec<Job>,
+    oracle: StackOracle,
+    depth: usize,
+    devs: Vec<(usize, usize, u8)>,
+    n_values: usize,
+}
+
+impl<'a> crate::catalogue::StackVisitor for StackJobs<'a> {
+    fn visit<S: Spec, C: flatcontainer::impls::index::IndexContainer<crate::spec::Idx<S>> + 'static>(&mut self, e: Entry<S>, caps: StackCaps<S, C>) {
+        match self.oracle {
+            StackOracle::Space if !caps.expect_free_indices => return,
+            StackOracle::Serde if caps.ser.is_none() || e.zst => return,
+            _ => {}
+        }
+        let oracle = self.oracle;
+        let nv = if S::name() == "MirrorRegion<usize>" { 8 } else { self.n_values };
+        let depth = if e.zst || caps.ser.is_none() { self.depth.min(3) } else if nv == 8 { self.depth.min(5) } else { self.depth };
+        {
+            let (e, caps) = (e.clone(), caps.clone());
+            let mut b = BfsCfg::new(depth);
+            b.wall_cap_s = 300.0;
+            b.max_states = 1_500_000;
+            self.out.push(job(move || Box::new(StackMachine::<S, C>::new(e.clone(), caps.clone(), oracle, nv, 0)), Mode::Bfs(b), false));
+        }
+        for &(n, k, script) in &self.devs {
+            let (e, caps) = (e.clone(), caps.clone());
+            self.out.push(job(
+                move || Box::new(StackMachine::<S, C>::new(e.clone(), caps.clone(), oracle, nv, script)),
+                Mode::Dev(DevCfg::new(n, k)),
+                false,
+            ));
+        }
+    }
+}
+
+fn stacks(out: &mut Vec<Job>, oracle: StackOracle, depth: usize, devs: &[(usize, usize, u8)], n_values: usize) {
+    let mut v = StackJobs { out, oracle, depth, devs: devs.to_vec(), n_values };
+    crate::catalogue::visit_stacks(&mut v);
+}
+
 fn life(
     out: &mut Vec<Job>,
     cfg: LifeCfg,
@@ -134,6 +197,8 @@ pub fn jobs(prop: &str, tier: &str) -> Vec<Job> {
             let scripts: &[u8] = &[0, 1, 2, 3];
             idx_jobs::<IndexList<Vec<u32>, Vec<u64>>>(&mut out, IdxOracle::Space, d, devs, scripts);
             idx_jobs::<IndexOptimized>(&mut out, IdxOracle::Space, d, devs, scripts);
+            let sdevs: &[(usize, usize, u8)] = if thorough { &[(4096, 0, 0), (256, 1, 0), (64, 2, 1)] } else { &[(1024, 0, 0), (48, 1, 0)] };
+            stacks(&mut out, StackOracle::Space, if thorough { 5 } else { 4 }, sdevs, 4);
         }
         "C01" => {
             let mut c = LifeCfg::new("C01");
@@ -147,6 +212,15 @@ pub fn jobs(prop: &str, tier: &str) -> Vec<Job> {
             c.reserve_regions = true;
             let devs: &[(usize, usize, u8)] = if thorough { &[(256, 1, 0), (64, 2, 0), (64, 2, 1)] } else { &[(48, 1, 0), (24, 2, 1)] };
             life(&mut out, c, if thorough { 6 } else { 4 }, devs, &|_| true, &|_, _| {});
+        }
+        "C03" => {
+            let devs: &[(usize, usize, u8)] = if thorough { &[(32, 2, 0), (256, 1, 1)] } else { &[(24, 1, 0), (48, 1, 1)] };
+            stacks(&mut out, StackOracle::Sequence, if thorough { 6 } else { 4 }, devs, 3);
+        }
+        "C09" => {
+            let mut v = CloneJobs { out: &mut out, depth: if thorough { 7 } else { 5 }, max_clones: if thorough { 2 } else { 1 } };
+            crate::catalogue::visit_all(&mut v);
+            stacks(&mut out, StackOracle::Sequence, if thorough { 5 } else { 3 }, &[], 3);
         }
         "C04" => {
             let mut c = LifeCfg::new("C04");
@@ -259,6 +333,7 @@ pub fn jobs(prop: &str, tier: &str) -> Vec<Job> {
             c.n_values = 3;
             let devs: &[(usize, usize, u8)] = if thorough { &[(48, 2, 0)] } else { &[(24, 1, 0)] };
             life(&mut out, c, if thorough { 5 } else { 4 }, devs, &|_| true, &|_, _| {});
+            stacks(&mut out, StackOracle::Presize, if thorough { 5 } else { 4 }, &[], 3);
         }
         "C12" => {
             let mut c = LifeCfg::new("C12");
@@ -296,6 +371,7 @@ pub fn jobs(prop: &str, tier: &str) -> Vec<Job> {
             idx_jobs::<IndexList<Vec<u32>, Vec<u64>>>(&mut out, IdxOracle::Serde, d, &[], &[]);
             idx_jobs::<IndexOptimized>(&mut out, IdxOracle::Serde, d, &[], &[]);
             idx_jobs::<Vec<usize>>(&mut out, IdxOracle::Serde, d, &[], &[]);
+            stacks(&mut out, StackOracle::Serde, if thorough { 5 } else { 4 }, &[], 3);
         }
         "C20" => {
             let mut c = LifeCfg::new("C20");
